@@ -591,6 +591,13 @@ def _robust2():
     return c18_robust2
 
 
+def _robust3():
+    from harness.props import c18_robust3
+    for k_, v_ in c18_robust3.ORACLES.items():
+        ORACLES.setdefault(k_, v_)
+    return c18_robust3
+
+
 def guarded(ctx, name, fn, *args):
     """an exception raised by the LIBRARY (or by the comparison code on what the library returned) inside a
     correspondence is a broken tie (-> failing-input search -> exit 1), never an infrastructure error"""
@@ -609,6 +616,7 @@ def guarded(ctx, name, fn, *args):
 def run_oracle(ctx, call, case, key=None, nontrivial=True):
     _robust()
     _robust2()
+    _robust3()
     ctx.count((call, key if key is not None else repr(case)), nontrivial)
     try:
         r = ORACLES[call](case)
@@ -627,6 +635,7 @@ def run_oracle(ctx, call, case, key=None, nontrivial=True):
 def replay(ctx, rep):
     _robust()
     _robust2()
+    _robust3()
     try:
         r = ORACLES[rep['call']](rep['case'])
     except Exception:
@@ -1076,7 +1085,8 @@ def check(ctx):
                              'ue:cover', 'ue:normalized', 'est:est:1d', 'est:est:2d', 'est:occ:2d', 'est:occ:3d',
                              'est:normalized', 'ls:2d', 'ls:3d-shared', 'ls:3d-own', 'contract:np.fft', 'contract:np.linalg.norm',
                              'oracle-est:occ', 'oracle-est:comb', 'oracle-est:plain', 'oracle-est:multi-user',
-                             'oracle-est:multi-antenna', 'oracle-est:normalized'] + _robust().REQUIRED + _robust2().REQUIRED
+                             'oracle-est:multi-antenna', 'oracle-est:normalized'] + _robust().REQUIRED + _robust2().REQUIRED \
+        + _robust3().REQUIRED
     try:
         drv = core.Driver(DRIVER)
         guarded(ctx, 'prime_lookup', corr_lookup, ctx, drv, 1300)
@@ -1089,6 +1099,7 @@ def check(ctx):
         guarded(ctx, 'compute_ls_estimation', corr_ls, ctx, drv, 60 if quick else 1500)
         guarded(ctx, 'robustness R1-R7', _robust().correspondence, ctx, drv, quick)
         guarded(ctx, 'robustness R8-R14', _robust2().correspondence, ctx, drv, quick)
+        guarded(ctx, 'robustness R15-R16', _robust3().correspondence, ctx, drv, quick)
     except core.Infra as e:
         if not ctx.broken:
             raise
@@ -1099,6 +1110,7 @@ def check(ctx):
     oracle_runs(ctx, quick)
     _robust().oracle_runs(ctx, quick)
     _robust2().oracle_runs(ctx, quick)
+    _robust3().oracle_runs(ctx, quick)
     ctx.sample({'call': 'prime_lookup', 'size': 1200, 'model': 'last of smallPrimeList.filter (<= size)'})
     ctx.sample({'call': 'RootSequence.seq_array', 'u': 25, 'size': 150,
                 'check': '|a|=1, R[tau]=0 for tau != 0, |DFT|^2 = N, seq[i] = seq[i mod Nzc]'})
@@ -1131,3 +1143,4 @@ def search(ctx):
         run_oracle(ctx, 'compute_ls_estimation', gen_ls_case(rng))
     _robust().search(ctx)
     _robust2().search(ctx)
+    _robust3().search(ctx)
